@@ -23,10 +23,10 @@ open Clvm Clvm.Interp Clvm.Alloc
 def coreAd0 : Adapters := Adapter.coreFragment (Proto.c01Adapters false)
 
 /-- opcodes of the classic operators whose per-operator agreement (`ref_op_eq_*`) is proved -/
-def provedOps : List Nat := [3, 4, 5, 6, 7, 8, 9, 10, 11, 12, 13, 16, 17, 18, 19, 20, 21, 22, 23, 27, 32, 33, 34]
+def provedOps : List Nat := [3, 4, 5, 6, 7, 8, 9, 10, 11, 12, 13, 14, 16, 17, 18, 19, 20, 21, 22, 23, 27, 32, 33, 34]
 
 /-- operators that end the comparison for now: everything that is not a proved classic operator —
-`concat` (14), `logand`/`logior`/`logxor` (24–26), every operator the reference treats as unknown
+`logand`/`logior`/`logxor` (24–26), every operator the reference treats as unknown
 (and 29, 30 and the newer assigned opcodes, which are outside C01 anyway) -/
 def unprovedOp (ob : Bytes) : Bool := !(provedOps.any (fun k => ob == [UInt8.ofNat k]))
 
@@ -1164,7 +1164,7 @@ theorem dispatch_agree : DispatchAgree := by
       simpa [unprovedOp] using hu
     obtain ⟨k, hk, rfl⟩ := hex
     simp only [provedOps, List.mem_cons, List.mem_nil_iff, or_false] at hk
-    rcases hk with rfl | rfl | rfl | rfl | rfl | rfl | rfl | rfl | rfl | rfl | rfl | rfl | rfl | rfl | rfl | rfl | rfl | rfl | rfl | rfl | rfl | rfl | rfl
+    rcases hk with rfl | rfl | rfl | rfl | rfl | rfl | rfl | rfl | rfl | rfl | rfl | rfl | rfl | rfl | rfl | rfl | rfl | rfl | rfl | rfl | rfl | rfl | rfl | rfl
     · -- op_if
       rw [chiaOp_classic (name := "op_if") (f := Interp.opIf) ((smallNumber_kw how (by decide) (by decide)).2 rfl) rfl
         (by decide) (by decide) rfl]
@@ -1209,6 +1209,10 @@ theorem dispatch_agree : DispatchAgree := by
       rw [chiaOp_classic (name := "op_strlen") (f := Interp.opStrlen) ((smallNumber_kw how (by decide) (by decide)).2 rfl) rfl
         (by decide) (by decide) rfl]
       exact Or.inr (opStrlen_agree m al c haw)
+    · -- op_concat
+      rw [chiaOp_classic (name := "op_concat") (f := Interp.opConcat) ((smallNumber_kw how (by decide) (by decide)).2 rfl) rfl
+        (by decide) (by decide) rfl]
+      exact Or.inr (opConcat_agree m al c haw hap)
     · -- op_add
       rw [chiaOp_classic (name := "op_add") (f := Interp.opAdd {}) ((smallNumber_kw how (by decide) (by decide)).2 rfl) rfl
         (by decide) (by decide) rfl]
